@@ -73,6 +73,12 @@ def check(prog, run):
                     for fp in fps:
                         npaths += 1
                         check_path(prog, run, fp, fspec, name, file, line)
+            # the documented parameters passed by position instead of by keyword
+            for sa in sas:
+                for fp in eval_facade(prog, name, fspec, setname, "all" if name in reffacade.POSITIONAL_OPTIONALS else "none", sa=sa,
+                                      check_condition="never", positional=True):
+                    npaths += 1
+                    check_path(prog, run, fp, fspec, name, file, line)
             # the same call made twice on one facade: what the first passed must not reach the second's CDB
             hist = history_for(prog, name, fspec, setname, methods)
             for sa in sas:
@@ -87,6 +93,13 @@ def check(prog, run):
     run.count("paths", npaths)
     run.floor("facade methods", nmeth, 38)
     run.floor("paths", npaths, 300)
+
+
+def same_arg(a, b):
+    a, b = norm_int(a), norm_int(b)
+    if isinstance(a, Sym) and isinstance(b, Sym):
+        return a.same_value(b)
+    return a is b or (type(a) is type(b) and isinstance(a, (int, str)) and a == b)
 
 
 def layout_keys(prog, fspec):
@@ -176,6 +189,11 @@ def check_path(prog, run, fp, fspec, name, file, line):
                 run.violation("decodes-device-buffer", c, "the decoder is given %r, not cmd.datain as the device left it" % (d["data"],), file, line)
             elif cmd.attrs.get("_result") is not d["marker"]:
                 run.violation("stores-result", c, "the decoded dictionary is not stored in cmd.result", file, line)
+            elif any(k in fp.args and not same_arg(v, fp.args[k]) for k, v in d["kwargs"].items()):
+                k = [k for k, v in d["kwargs"].items() if k in fp.args and not same_arg(v, fp.args[k])][0]
+                run.violation("decodes-response", c + " (decoder argument %s)" % k,
+                              "the response is decoded with %s=%r although the command was built (and sent) with %s=%r on %s: the data is "
+                              "interpreted in another format than the one requested" % (k, d["kwargs"][k], k, fp.args[k], fp.label()), file, line)
             else:
                 run.ok("decodes-response", c)
     # CDB: every facade argument reaches its standard position
